@@ -270,7 +270,8 @@ Proof.
   { apply orb_false_iff in EP. destruct EP as [E1 E2].
     apply Z.ltb_ge in E1. destruct (Z.gtb_spec P 16); [discriminate | lia]. }
   cbn [orb Z.ltb Z.gtb Z.compare].
-  destruct (negb (zlen (pixelsToIntegers P px) =? w * h * comps)); [reflexivity|].
+  destruct ((w >? 65535) || (h >? 65535)); [reflexivity|].
+  destruct (zlen px <? w * h * comps * Z.quot (P + 7) 8); [reflexivity|].
   assert (Hn : 0 <= 0 <= near_max P).
   { unfold near_max. pose proof (pow2_bounds P HP). assert (0 <= (2 ^ P - 1) / 2) by (apply Z.div_pos; lia). lia. }
   assert (H0 : jp_near (jls_params P 0) = 0) by (destruct (jls_params_facts P 0 HP Hn); assumption).
